@@ -464,6 +464,8 @@ def gen_faults(r, profile, opts):
         f["cut"] = r.choice([1, 2, 3, 5, 8, 13, 21])
     if profile == "greedy" and opts.get("p_z3_probe"):
         f["z3_probe"] = r.random() < opts["p_z3_probe"]
+    if profile == "greedy" and opts.get("p_preempt_probe"):
+        f["preempt_probe"] = r.random() < opts["p_preempt_probe"]
     if profile == "plan":
         f["solver_chaos"] = {"on": r.random() < opts.get("p_solver_chaos", 0.5), "p": 0.7}
     return f
